@@ -144,6 +144,8 @@ class Steps:
             self.add()
         if self.default == s['id']:
             self.default = None
+        elif isinstance(self.default, list) and s['id'] in self.default:
+            self.default = [d for d in self.default if d != s['id']]
         self.removed.append(s)
         return s
 
@@ -182,9 +184,14 @@ class Steps:
         self.steps.insert(self.rng.randint(pos, max(pos, hi)), s)
         return s
 
-    def render(self):
+    def render(self, broken_at=None):
         lines = ['# generated by bfgsim', "project('solution', version='1.0')"]
-        for s in self.steps:
+        for n, s in enumerate(self.steps):
+            if broken_at is not None and n == broken_at:
+                # not representable in MSBuild: fails inside the writer,
+                # after the projects of the earlier steps were created
+                lines.append("bad = command('bad', cmd=['echo'], "
+                             "extra_deps=[object_file(file='main.c')])")
             v = 's{}'.format(s['id'])
             deps = '[{}]'.format(', '.join('s{}'.format(d)
                                            for d in s['deps']))
@@ -200,9 +207,12 @@ class Steps:
             elif s['kind'] == 'alias':
                 lines.append("{} = alias({!r}, {})".format(v, s['name'],
                                                            deps))
-        if self.default is not None and \
-           any(s['id'] == self.default for s in self.steps):
-            lines.append('default(s{})'.format(self.default))
+        ids = {s['id'] for s in self.steps}
+        dflt = [d for d in (self.default if isinstance(self.default, list)
+                            else [self.default]) if d in ids]
+        if dflt:
+            lines.append('default({})'.format(
+                ', '.join('s{}'.format(d) for d in dflt)))
         return '\n'.join(lines) + '\n'
 
 
@@ -278,6 +288,9 @@ def execute(root, cfg, scripts):
         prev = None
         sln_guid = None
         for i, text in enumerate(scripts):
+            may_fail = False
+            if isinstance(text, (list, tuple)):
+                text, may_fail = text[0], bool(text[1])
             w.write('build.bfg', text)
             if i == 0:
                 r = R.run_bfg(w, ['configure', w.build, '--backend=msbuild',
@@ -286,6 +299,11 @@ def execute(root, cfg, scripts):
             else:
                 r = R.run_bfg(w, ['regenerate', w.build], env=env, cwd=w.src)
             trace.append(['run', i, r.status])
+            if not r.ok and may_fail:
+                # a temporarily broken script: the failed run must not
+                # disturb the GUIDs of the projects that still exist
+                stats['failed_runs'] = stats.get('failed_runs', 0) + 1
+                continue
             if not r.ok:
                 raise HarnessError('bfg9000 failed on a valid script:\n' +
                                    r.output[-2000:] + '\n' + text)
@@ -324,7 +342,7 @@ def run_case(seed, root, params=None):
     for _ in range(rng.randint(2, params.get('max_runs', 6))):
         for _ in range(rng.randint(1, 2)):
             k = rng.choice(['add', 'add', 'remove', 'readd', 'rename',
-                            'reorder', 'default', 'keep'])
+                            'reorder', 'default', 'default', 'keep'])
             if k == 'add':
                 st.add()
             elif k == 'remove':
@@ -336,8 +354,18 @@ def run_case(seed, root, params=None):
             elif k == 'reorder':
                 st.reorder()
             elif k == 'default' and st.steps:
-                st.default = rng.choice(st.steps)['id']
+                linked = [x['id'] for x in st.steps]
+                if len(linked) > 1 and rng.random() < 0.5:
+                    st.default = rng.sample(linked, rng.randint(2, min(
+                        3, len(linked))))
+                else:
+                    st.default = rng.choice(linked)
             kinds.append(k)
+        if rng.random() < 0.25 and len(st.steps) > 1:
+            # a broken intermediate version, then the fixed one
+            scripts.append([st.render(broken_at=rng.randrange(
+                len(st.steps))), True])
+            kinds.append('broken')
         scripts.append(st.render())
     violations, trace, stats = execute(root, cfg, scripts)
     return {'cfg': cfg, 'scripts': scripts, 'kinds': kinds,
@@ -376,9 +404,13 @@ EVIDENCE = {
 }
 
 
+def _text(s):
+    return s[0] if isinstance(s, (list, tuple)) else s
+
+
 def summarise(case):
     shape = '|'.join(case['kinds']) + '#' + hashlib.sha256(
-        case['scripts'][0].encode()).hexdigest()[:8]
+        _text(case['scripts'][0]).encode()).hexdigest()[:8]
     st = case['stats']
     rep = None
     if case['violations']:
@@ -394,8 +426,8 @@ def summarise(case):
         'digest': hashlib.sha256(repr(case['trace']).encode())
         .hexdigest()[:16],
         'sample': {'seed': case['seed'], 'edit_kinds': case['kinds'],
-                   'first_script': case['scripts'][0].split('\n'),
-                   'last_script': case['scripts'][-1].split('\n')},
+                   'first_script': _text(case['scripts'][0]).split('\n'),
+                   'last_script': _text(case['scripts'][-1]).split('\n')},
         'replay': rep,
         'wall': case.get('wall'),
     }
@@ -429,6 +461,8 @@ def minimise(rep, v, root, deadline):
     ddmin(best['rep']['ops'], attempt, deadline)
     # drop lines of the remaining scripts
     for i in range(len(best['rep']['ops'])):
+        if not isinstance(best['rep']['ops'][i][1], str):
+            continue
         lines = best['rep']['ops'][i][1].split('\n')
         j = len(lines) - 1
         while j >= 2 and time.monotonic() < deadline:
